@@ -9,7 +9,7 @@
 import re
 
 from ural.patterns import QUERY_VALUE_IN_URL_TEMPLATE
-from ural.utils import unquote, urljoin
+from ural.utils import unquote, urljoin, fix_common_query_mistakes
 
 OBVIOUS_REDIRECTS_RE = re.compile(
     QUERY_VALUE_IN_URL_TEMPLATE
@@ -64,7 +64,10 @@ def infer_redirection_step(url):
             target = "https://" + redirection_split[1]
 
     else:
-        obvious_redirect_match = re.search(OBVIOUS_REDIRECTS_RE, url)
+        # NOTE: "&amp;" written for "&" must not hide a parameter
+        obvious_redirect_match = re.search(
+            OBVIOUS_REDIRECTS_RE, fix_common_query_mistakes(url)
+        )
 
         if obvious_redirect_match is not None:
             # NOTE: the pattern is case-insensitive, so must be this test
